@@ -82,10 +82,28 @@ Proof.
   - right. destruct v; cbn in H; [discriminate|auto].
 Qed.
 
-(* process never fails *)
+(* process never fails - except that it passes on what left a coroutine body *)
 Lemma process_never_fails sc t dt log exc :
-  ok09 (sp_step sc t (Process dt) (ObsP log exc)) = true -> exc = OOk.
+  ok09 (sp_step sc t (Process dt) (ObsP log exc)) = true ->
+  exc = abort_outcome (fold_left (sp_exec sc) log (tick dt (flagwf (0 <=? dt) t))).
 Proof.
   cbn [sp_step]. unfold frame_end. sproj. intros H. apply andb_true_iff in H.
-  destruct H as [_ H]. now destruct exc.
+  destruct H as [_ H]. apply outcome_eqb_eq in H. exact H.
 Qed.
+
+(* a body that raises terminates its coroutine; the promise keeps None; the
+   frame is over: nobody is owed a step, nobody may run *)
+Lemma raise_terminates t g k :
+  sp_state (sp_result t g (RRaise k)) g = 0 /\
+  t_val (sp_result t g (RRaise k)) = t_val t /\
+  In g (t_fin (sp_result t g (RRaise k))) /\
+  t_due (sp_result t g (RRaise k)) = [] /\
+  no_abort (sp_result t g (RRaise k)) = false.
+Proof.
+  cbn [sp_result]. unfold sp_state, no_abort. sproj. rewrite alookup_adel_eq.
+  repeat split; auto. now left.
+Qed.
+
+(* the frame after an abandoned one is an ordinary frame *)
+Lemma abort_forgotten t exc : t_abort (frame_end t exc) = None.
+Proof. reflexivity. Qed.
